@@ -407,6 +407,10 @@ def call_once(ctx, case, sandbox, ref_ns, fname, label, argsrc, rng):
         res = sbx.call(fname, *(safe_copy(args) if sb_args is None else sb_args), target=target, **dict(kwargs, **(sb_kwargs or {})))
     except BaseException as e:
         ctx.count('call_raised_(C04 territory)')
+        if ref_exc is None:
+            # called directly the function returns a value: call() raising into the grader is not the same outcome
+            ctx.violation('C06|call-itself-raised|%s|args=%s' % (type(e).__name__, label), dict(case, call=sub),
+                          'CPython returns %r; call() raised %s' % (ref_res, traceback.format_exception_only(type(e), e)[-1][:200]))
         return
     ctx.count('calls_compared')
     ctx.seen('call_arg_classes', label)
@@ -528,6 +532,9 @@ def special_programs():
                 "def both(a, b):\n    a.append(1)\n    return len(b)\nempty_bag = Bag()\nprint(kind(empty_bag))\n",
                 [('kind', ["ns:[Bag()]", "ns:[Off()]", "ns:[empty_bag]", "ns:[[Bag()]]"]), ('fill', ["[[[]] * 3]", "(lambda e: [[e, e, e]])([])", "[[[], [], []]]", "(lambda e: [(e, e)])({})"]),
                  ('both', ["(lambda e: [e, e])([])", "[[], []]"])]))
+    out.append(('function-deletes-a-global-name-that-pedal-uses-for-its-argument', "def tidy(v, w=None):\n    global _temporary_arg_0, _temporary_kwarg_w\n    for attempt in (0, 1):\n        try:\n"
+                "            if attempt == 0:\n                del _temporary_arg_0\n            else:\n                del _temporary_kwarg_w\n        except NameError:\n            pass\n    return 1\n",
+                [('tidy', ['[object()]', "[list(range(200))]", "kw:([object()], {'w': object()})", '[5]'])]))
     out.append(('any-value-passed-through', "def ident(v):\n    return v\ndef kind(v):\n    return type(v).__name__\ndef both(v, w=None):\n    return [kind(v), kind(w)]\n",
                 [('ident', [a for _, a in HOSTILE_ARGS]), ('kind', [a for _, a in HOSTILE_ARGS]), ('both', ["[object(), 5]", "[3, len]"])]))
     out.append(('failure-in-a-method-chain', "class Node:\n    def __init__(self, nxt):\n        self.nxt = nxt\n    def depth(self):\n        if self.nxt is None:\n"
